@@ -187,6 +187,14 @@ func c12Direct(c *Ctx, h tq.Handler, sink *sinkRec, m *ref.Msg, seq int) {
 		}
 		return
 	}
+	// contradictory flags (RFC 8907 section 7.2: start with stop, stop with watchdog) are answered ERROR even where the
+	// library's own validation lets the octet through
+	if fl := m.N["flags"]; (fl&0x02 != 0 && fl&0x04 != 0) || (fl&0x04 != 0 && fl&0x08 != 0) {
+		if rep.Status != tq.AcctReplyStatusError {
+			fail("contradictory-flags-acknowledged", fmt.Sprintf("flags %#x mark the record as start and stop (or stop and watchdog) at once and were answered status %d", fl, rep.Status))
+		}
+		return
+	}
 	if rep.Status == tq.AcctReplyStatusSuccess {
 		c.R.Distinct(evid.Hash(body, seq))
 		if len(calls) != 1 {
